@@ -5,6 +5,7 @@ import (
 	"flag"
 	"fmt"
 	"math/rand"
+	"reflect"
 	"sort"
 
 	"gorm.io/gorm"
@@ -436,6 +437,14 @@ func (m *modeEnv) run(caseNo int, links [][2]int64, ops []AOp) (hx.M, error) {
 				next++
 			}
 			vals = append(vals, v)
+		}
+		if len(vals) >= 3 {
+			// three or more targets: the first as a single value, the others together as one slice argument
+			tail := reflect.MakeSlice(reflect.SliceOf(reflect.TypeOf(vals[1])), 0, len(vals)-1)
+			for _, v := range vals[1:] {
+				tail = reflect.Append(tail, reflect.ValueOf(v))
+			}
+			vals = []interface{}{vals[0], tail.Interface()}
 		}
 		// a fresh association handle per operation (it mutates its own statement)
 		as := m.e.DB.Model(model).Association(m.rel())
